@@ -8,7 +8,7 @@ C11 requests.
   tensor  `<namehex>:<d>/<d>…:<type>:<quant>:<const>:<var>`; quant `-` or `<scalebits>/…~<zp>/…~<minbits>/…~<maxbits>/…~<qdim>`;
           const `-` or `<bytes>.<digest>`
   op      `<builtin>:<customhex>:<version>:<T|N><optiontype>~<slot>.<hex>…:<customoptionshex>:<in>/<in>…:<out>/<out>…`
-  answer  `<ok|bad|pre> preserved=<n> absorbed=<n> folded=<n> bypassed=<n> dead=<n> ethosu=<n> n=<problems> <kind>|<detail> ~ …`
+  answer  `<ok|bad|pre> preserved=<n> absorbed=<n> folded=<n> dead=<n> ethosu=<n> n=<problems> <kind>|<detail> ~ …`
 `reread w=<tok>,… v=<tok>,…`   the output file as the plain walker / as Vela's reader sees it; answer `same <n>` or `differ <pos> <w> <v>`
 `alignidx from=<i>/<i>|<w>|<b> to=<i>|<w>|<b> n=<len>`   model of reader_util.align_inputs_indices applied to [0..n);
   answer `ok <perm>` or `err:<kind>`
@@ -108,7 +108,7 @@ def handle : List String → Option String
       | _, _ => []
     let v := { v0 with problems := nsg ++ v0.problems }
     let c := v.cover
-    let stats := s!"preserved={c.preserved} absorbed={c.absorbed} folded={c.folded} bypassed={c.bypassed} dead={c.dead} ethosu={v.ethosu}"
+    let stats := s!"preserved={c.preserved} absorbed={c.absorbed} folded={c.folded} dead={c.dead} ethosu={v.ethosu}"
     if !v.pre.isEmpty then some (s!"pre {stats} n={v.pre.length} " ++ showProblems v.pre)
     else if v.problems.isEmpty then some (s!"ok {stats} n=0")
     else some (s!"bad {stats} n={v.problems.length} " ++ showProblems v.problems)
